@@ -35,12 +35,13 @@ class Infeasible(Exception):
 # values
 # ----------------------------------------------------------------------------------------
 class BV:
-    __slots__ = ("w", "signed", "bits")
+    __slots__ = ("w", "signed", "bits", "native")
 
-    def __init__(self, w, signed, bits):
+    def __init__(self, w, signed, bits, native=None):
         self.w = w
         self.signed = signed
         self.bits = tuple(bits)   # index 0 = least significant
+        self.native = signed if native is None else native     # signedness of the input variable these bits were created as
         assert len(self.bits) == w, (w, len(self.bits))
 
     @staticmethod
@@ -96,7 +97,7 @@ class BV:
                 nb.append(v if b[0] == "x" else 1 - v)
             else:
                 nb.append(b)
-        return BV(self.w, self.signed, nb)
+        return BV(self.w, self.signed, nb, self.native)
 
     def __eq__(self, o):
         return isinstance(o, BV) and self.w == o.w and self.bits == o.bits
@@ -287,7 +288,8 @@ def cast_int(v, w, signed):
     else:
         ext = v.bits[-1] if v.signed else 0
         bits = v.bits + (ext,) * (w - v.w)
-    return BV(w, signed, bits)
+    # a same-width cast of an input variable keeps its bits and changes their reading: remember how they were declared
+    return BV(w, signed, bits, v.native if v.w == w else None)
 
 
 ARITH = {"Add", "Sub", "Mul", "Div", "Rem", "Shl", "Shr", "AddWithOverflow", "SubWithOverflow", "MulWithOverflow",
@@ -599,6 +601,30 @@ class Interp:
         # symbolic
         if op in CMP:
             va, vb = a.whole_var(), b.whole_var()
+            if va and b.is_const() and a.native != a.signed:
+                # `x as i32 <= 9` on an unsigned input x (or the reverse): the comparison reads the bits differently from how the
+                # variable is declared.  Split on the top bit: below 2^(w-1) both readings agree; above, the verdict is a constant.
+                c = b.svalue() if b.signed else b.value()
+                top = (va, a.w - 1)
+                if top in sg:
+                    cases = [sg[top]]
+                else:
+                    cases = [0, 1]
+                out = []
+                for tv in cases:
+                    s2 = dict(sg)
+                    s2[top] = tv
+                    if tv == 0:
+                        out.append((s2, Pred(va, op, c)))
+                        continue
+                    if c < 0 or c >= (1 << (a.w - 1)):
+                        raise LeaveDomain("reinterpreting comparison with %d" % c)
+                    if a.signed:      # read as negative
+                        verdict = {"Lt": 1, "Le": 1, "Gt": 0, "Ge": 0, "Eq": 0, "Ne": 1}[op]
+                    else:             # read as >= 2^(w-1)
+                        verdict = {"Lt": 0, "Le": 0, "Gt": 1, "Ge": 1, "Eq": 0, "Ne": 1}[op]
+                    out.append((s2, BV.const(1, False, verdict)))
+                return out
             if va and b.is_const():
                 return [(sg, Pred(va, op, b.svalue() if b.signed else b.value()))]
             if vb and a.is_const():
